@@ -80,21 +80,17 @@ known("C18", "grouping-with-exponent-general-percent-panics", "a ',' or '_' grou
 known("C18", "grouping-applies-width-as-zero-padding", "with a grouping option the field width is filled with grouped zeros even when neither '0' nor '=' was requested (also for inf/nan)", "format(7, '12,d')")
 known("C18", "grouping-no-type-float-exponent-form", "grouping is inserted into exponent-form text of a float without presentation type ('1e_+15')", "format(1e15, '_')")
 known("C18", "grouping-zero-padding-width-accounting", "with grouping and '='/'0' alignment a non-zero fill is replaced by grouped zeros / width is accounted differently", "format(-255, '= 8_')")
-known("C18", "grouping-validation-differs", "specifications with a grouping option are accepted/rejected differently from Python", "format(1, ',b')")
 known("C18", "z-option-unknown", "the 3.11 'z' (negative-zero coercion) option is not recognised", "format(-0.0, 'z.1f')")
 known("C18", "string-spec-sign-alt-equals-align-not-rejected", "string formatting does not reject sign, space, '#', '=' alignment, '0' or grouping", "format('a', '+')")
 known("C18", "string-zero-flag-padding-differs", "'0' width flag on a string pads on the left (Python pads strings on the right with '0')", "format('a', '05')")
 known("C18", "bool-without-type-formatted-as-text-not-int", "a boolean with a non-empty specification without presentation type is rendered as 'True'/'False'; Python formats it as the integer 1/0 with all numeric options", "format(True, '5')")
 known("C18", "char-conversion-validation-and-padding", "type 'c' accepts a precision/sign/'#', pads by bytes and does not range-check like Python", "format(97, '.2c')")
 known("C18", "float-no-type-with-precision-or-alt", "a float without presentation type but with a precision or '#' takes a different branch ('1' instead of '1.0', '1e+16' instead of '1.e+16')", "format(1.0, '.2')")
-known("C18", "float-special-values-zero-pad-alt", "inf/nan with zero padding, '=' alignment, '#' or precision differ", "format(float('inf'), '08')")
-known("C18", "n-type-handling", "type 'n' differs (accept/reject or text)", "format(1.5, 'n')")
-known("C18", "int-precision-not-rejected", "a precision on an integer presentation type is not rejected", "format(1, '.2d')")
 known("C18", "leading-conversion-accepted-in-format-spec", "FormatSpec::parse accepts a leading '!x' conversion inside the specification text; Python's format() rejects it", "format(1, '!b')")
 known("C18", "char-conversion-of-surrogate-code-point-is-an-error", "type 'c' with an integer in U+D800..U+DFFF returns CodeNotInRange: Python returns a lone surrogate, which a Rust String cannot hold (before 175e5de this panicked)", "format(0xD800, 'c')")
 known("C18", "float-no-type-shortest-repr-tie-broken-differently", "a float without type and precision is rendered with Rust's shortest round-trip digits; where two equally short digit strings round-trip, Python's repr picks the one nearer the exact value and the crate may pick the other", "format(915724668195213.2, '')")
+fixed("C18", "unlisted:differs-from-python-format", "c9de06d", "the '%' type printed 'inf.%' (with '#') / padded differently when value*100 overflows to infinity: the inf/nan test was made before the multiplication", "format(2e307, '#.0%')")
 fixed("C18", "unlisted:panic", "175e5de", "FormatSpec::format_int with type 'c' panicked (char::from_u32(..).unwrap()) for integers in the surrogate range U+D800..U+DFFF", "format(0xD800, 'c')")
-known("C18", "int-with-float-type", "an integer formatted with a float presentation type differs", "format(10**30, 'e')")
 
 # ---------------------------------------------------------------- C19
 known("C19", "percent-b-accepted-in-text-template", "the specifier parser is shared between text and bytes templates, so '%b' is accepted in a text template (Python: unsupported format character 'b')", "'%b' % 1")
